@@ -26,6 +26,7 @@ import (
 	"sort"
 	"strconv"
 	"strings"
+	"syscall"
 	"testing"
 	"time"
 
@@ -245,8 +246,22 @@ func (d day) time() time.Time {
 	return time.Unix(int64(d)*86400, 0).UTC()
 }
 
-// nthWeekday returns the day of the pos-th (5 = last) weekday wd in the month (y, m).
+type nthKey struct {
+	y   int
+	m   time.Month
+	wd  time.Weekday
+	pos int
+}
+
+// nthCache memoises nthWeekday (the harness runs one sequential loop per process).
+var nthCache = map[nthKey]day{}
+
+// nthWeekday returns the day of the pos-th (5 = last) weekday wd in the month (y, m), by scanning the month.
 func nthWeekday(y int, m time.Month, wd time.Weekday, pos int) day {
+	k := nthKey{y, m, wd, pos}
+	if d, ok := nthCache[k]; ok {
+		return d
+	}
 	var hits []day
 	for d := 1; d <= 31; d++ {
 		t := time.Date(y, m, d, 0, 0, 0, 0, time.UTC)
@@ -257,10 +272,12 @@ func nthWeekday(y int, m time.Month, wd time.Weekday, pos int) day {
 			hits = append(hits, dayOf(t))
 		}
 	}
-	if pos == 5 {
-		return hits[len(hits)-1]
+	res := hits[len(hits)-1]
+	if pos != 5 {
+		res = hits[pos-1]
 	}
-	return hits[pos-1]
+	nthCache[k] = res
+	return res
 }
 
 // match: does the week span cover day d?
@@ -477,6 +494,15 @@ type c16Case struct {
 	Now  string `json:"now,omitempty"`
 	MaxH int    `json:"max_hours,omitempty"`
 	Day  string `json:"day,omitempty"` // weekspan case
+}
+
+// cpuMs: CPU time (user+system) used by this process so far; wall time means little on a shared machine.
+func cpuMs() int64 {
+	var ru syscall.Rusage
+	if syscall.Getrusage(syscall.RUSAGE_SELF, &ru) != nil {
+		return 0
+	}
+	return (ru.Utime.Sec+ru.Stime.Sec)*1000 + int64(ru.Utime.Usec+ru.Stime.Usec)/1000
 }
 
 var theNow time.Time
@@ -703,7 +729,7 @@ func (em *exprModel) checkIncludes(t time.Time) (string, string) {
 var parseTokens = []string{
 	"mon", "fri", "mon1", "fri5", "tue6", "mon0", "xyz",
 	"9:00", "09:00", "11:00", "24:00", "24:01", "25:00", "9:60", "9:5",
-	"-", "~", "/", "2", "0", ",", ",,", " ",
+	"-", "~", "/", "/2", "/0", "2", "0", ",", ",,", " ",
 }
 
 func tokenString(idx, n int) string {
@@ -776,20 +802,22 @@ type space struct {
 }
 
 func buildSpace(thorough bool) space {
-	// (the first six of each menu are also combined in pairs in the quick tier)
+	// (the first five of each menu are also combined in pairs in the quick tier)
 	weeks := []string{"mon", "fri5", "mon-fri1", "thu4-wed", "fri-mon", "tue2", "fri", "sun", "mon1", "mon-fri", "sat1-sun1", "mon5-mon"}
 	clocks := []string{"09:00", "9:00~11:00", "23:00-01:00", "22:00~02:00/2", "0:00-24:00/4", "10:00-11:00", "00:00", "23:30", "9:00-11:00", "9:00~9:03"}
-	pweeks := []string{"mon", "fri5", "mon-fri1", "thu4-wed"}
-	pclocks := []string{"09:00", "9:00~11:00", "23:00-01:00", "22:00~02:00/2"}
+	pweeks := []string{"mon", "fri5", "mon-fri1"}
+	pclocks := []string{"09:00", "9:00~11:00", "23:00-01:00"}
 	if thorough {
+		pweeks = append(pweeks, "thu4-wed")
+		pclocks = append(pclocks, "22:00~02:00/2")
 		weeks = append(weeks, "wed", "sat-sun", "sun5", "wed3", "fri1-mon", "tue-mon2", "mon4-wed5", "sat5-fri")
 		clocks = append(clocks, "23:59", "12:30", "9:00-9:03", "0:00~24:00", "9:00-11:00/2", "23:00-01:00/2", "12:00~18:00/3")
 		pweeks = append(pweeks, "tue2", "fri-mon")
 		pclocks = append(pclocks, "00:00", "0:00-24:00/4")
 	}
 	var sp space
-	// pairs of week specs / clock specs only over the first six (quick) / eight (thorough) of each menu
-	pairN := 6
+	// pairs of week specs / clock specs only over the first five (quick) / eight (thorough) of each menu
+	pairN := 5
 	if thorough {
 		pairN = 8
 	}
@@ -835,7 +863,7 @@ func buildSpace(thorough bool) space {
 	}
 	// 2018: Jan 31 is a Wednesday, February has 28 days; 70 days cross two month ends
 	if !thorough {
-		addRange(time.Date(2018, 1, 20, 0, 0, 0, 0, time.UTC), 70, 13*time.Hour+19*time.Minute)
+		addRange(time.Date(2018, 1, 20, 0, 0, 0, 0, time.UTC), 70, 17*time.Hour+23*time.Minute)
 		addBoundary(time.Date(2018, 2, 26, 0, 0, 0, 0, time.UTC), 5)
 	} else {
 		addRange(time.Date(2018, 1, 20, 0, 0, 0, 0, time.UTC), 70, 6*time.Hour+37*time.Minute)
@@ -919,7 +947,7 @@ func TestC16(t *testing.T) {
 	}
 
 	sp := buildSpace(r.Thorough())
-	tokLen := r.Pick(5, 6)
+	tokLen := r.Pick(4, 5)
 	if r.Sharded(16) {
 		r.Finish(rule)
 	}
@@ -957,6 +985,8 @@ func TestC16(t *testing.T) {
 		}
 	}
 	r.Max("max_parse_phase_ms", int64(r.Elapsed()/time.Millisecond))
+	cpuParse := cpuMs()
+	r.Add("cpu_ms_parse_phase", cpuParse)
 	r.Add("parse_strings", nParse)
 	r.Add("parse_accepted", nAccepted)
 	r.Add("parse_not_judged", nGray)
@@ -992,6 +1022,8 @@ func TestC16(t *testing.T) {
 		}
 	}
 	r.Max("max_parse_and_weekspan_phases_ms", int64(r.Elapsed()/time.Millisecond))
+	cpuWeek := cpuMs()
+	r.Add("cpu_ms_weekspan_phase", cpuWeek-cpuParse)
 	r.Add("weekspan_day_evaluations", nWeek)
 	r.Add("weekspan_matching_days", nWeekMatch)
 
@@ -1064,6 +1096,7 @@ func TestC16(t *testing.T) {
 	if capped {
 		r.Cap("time", "schedule space stopped early in at least one worker; parser and week-span spaces complete")
 	}
+	r.Add("cpu_ms_schedule_phase", cpuMs()-cpuWeek)
 	r.Add("next_cases", nNext)
 	r.Add("includes_comparisons", nInc)
 	r.Add("includes_true", nIncTrue)
@@ -1088,10 +1121,16 @@ const rule = "A: every string of <= parse_max_tokens tokens of the token alphabe
 	"distinct_nontrivial = (expression,last,now,max) cases in which a window of the timer (not the limit, not an overdue limit) decided the attempt"
 
 // shape abstracts an accepted string to its token classes (vacuity guard for the parser space).
+var (
+	reShapeN = regexp.MustCompile(wdRe + `[1-5]`)
+	reShapeW = regexp.MustCompile(wdRe)
+	reShapeT = regexp.MustCompile(timeRe)
+)
+
 func shape(s string) string {
-	s = regexp.MustCompile(wdRe+`[1-5]`).ReplaceAllString(s, "N")
-	s = regexp.MustCompile(wdRe).ReplaceAllString(s, "W")
-	s = regexp.MustCompile(timeRe).ReplaceAllString(s, "T")
+	s = reShapeN.ReplaceAllString(s, "N")
+	s = reShapeW.ReplaceAllString(s, "W")
+	s = reShapeT.ReplaceAllString(s, "T")
 	return s
 }
 
